@@ -3,6 +3,7 @@
 package sm4
 
 import (
+	"time"
 	"bytes"
 	"crypto/cipher"
 	"fmt"
@@ -29,6 +30,7 @@ type c17op struct {
 	nonce  *hk.GBuf
 	want   []byte
 	wantOK bool
+	off    int // the input starts at this offset of `in` (inputs that are not 16-byte aligned)
 }
 
 func TestVerifC17SM4(t *testing.T) {
@@ -79,15 +81,30 @@ func TestVerifC17SM4(t *testing.T) {
 					pt, aadV := rng.Bytes(pl), rng.Bytes(rng.Pick([]int{0, 7, 16, 130}))
 					sealed := g.Seal(nonceV, pt, aadV, tagSize)
 					gPt, gAad, gCt := protect(pt), protect(aadV), protect(sealed)
-					ops = append(ops, &c17op{"seal", gPt, gAad, gNonce, sealed, true})
-					ops = append(ops, &c17op{"open", gCt, gAad, gNonce, pt, true})
-					ops = append(ops, &c17op{"open-forged", protect(flipBit(sealed, rng.Intn(len(sealed)*8))), gAad, gNonce, nil, false})
+					ops = append(ops, &c17op{"seal", gPt, gAad, gNonce, sealed, true, 0})
+					ops = append(ops, &c17op{"open", gCt, gAad, gNonce, pt, true, 0})
+					ops = append(ops, &c17op{"open-forged", protect(flipBit(sealed, rng.Intn(len(sealed)*8))), gAad, gNonce, nil, false, 0})
 				}
 				for i := 0; i < 6; i++ {
 					b := rng.Bytes(16)
 					ct := ref.SM4Encrypt(key, b)
-					ops = append(ops, &c17op{"enc", protect(b), nil, nil, ct, true})
-					ops = append(ops, &c17op{"dec", protect(ct), nil, nil, b, true})
+					ops = append(ops, &c17op{"enc", protect(b), nil, nil, ct, true, 0})
+					ops = append(ops, &c17op{"dec", protect(ct), nil, nil, b, true, 0})
+				}
+				// the same kinds of operation on inputs that do NOT start on a 16-byte boundary (sub-slices of shared,
+				// write-protected buffers at every odd offset): a routine that stages such inputs somewhere shared shows here
+				for i := 0; i < 8; i++ {
+					off := 1 + (i*3+round)%15
+					b := rng.Bytes(16)
+					ct := ref.SM4Encrypt(key, b)
+					ops = append(ops, &c17op{kind: "enc", in: protect(append(make([]byte, off), b...)), want: ct, wantOK: true, off: off})
+					ops = append(ops, &c17op{kind: "dec", in: protect(append(make([]byte, off), ct...)), want: b, wantOK: true, off: off})
+					pl := []int{1, 16, 33, 64, 100, 300, 17, 256}[i]
+					pt, aadV := rng.Bytes(pl), rng.Bytes(rng.Pick([]int{0, 7, 16}))
+					sealed := g.Seal(nonceV, pt, aadV, tagSize)
+					gAad := protect(aadV)
+					ops = append(ops, &c17op{kind: "seal", in: protect(append(make([]byte, off), pt...)), aad: gAad, nonce: gNonce, want: sealed, wantOK: true, off: off})
+					ops = append(ops, &c17op{kind: "open", in: protect(append(make([]byte, off), sealed...)), aad: gAad, nonce: gNonce, want: pt, wantOK: true, off: off})
 				}
 				var before [2][32]uint32
 				if c, ok := blk.(*sm4CipherAsm); ok {
@@ -98,26 +115,22 @@ func TestVerifC17SM4(t *testing.T) {
 				workers := []int{16, 64, 32}[round%3]
 				iters := hk.N(150, 600)
 				var wg sync.WaitGroup
-				var inflight int64
 				start := make(chan struct{})
+				t0 := time.Now()
+				logs := make([]*hk.OverlapLog, workers)
 				for w := 0; w < workers; w++ {
 					wg.Add(1)
+					logs[w] = hk.NewOverlapLog(t0)
 					go func(w int) {
 						defer wg.Done()
 						lr := hk.NewRNG(hk.Seed(), fmt.Sprintf("c17/%d/%d", round, w))
+						olog := logs[w]
 						<-start
 						for it := 0; it < iters; it++ {
 							op := ops[lr.Intn(len(ops))]
-							n := atomic.AddInt64(&inflight, 1)
-							if n > 1 {
-								atomic.AddInt64(&overlapped, 1)
-							}
-							for {
-								m := atomic.LoadInt64(&maxInflight)
-								if n <= m || atomic.CompareAndSwapInt64(&maxInflight, m, n) {
-									break
-								}
-							}
+							// (no shared counter here: an atomic stamped around every operation orders the operations for the race
+							// detector and hides the races between them - see hk.OverlapLog)
+							olog.Begin()
 							var out []byte
 							var err error
 							if it%11 == 3 {
@@ -140,18 +153,17 @@ func TestVerifC17SM4(t *testing.T) {
 								switch op.kind {
 								case "enc":
 									out = make([]byte, 16)
-									blk.Encrypt(out, op.in.B)
+									blk.Encrypt(out, op.in.B[op.off:])
 								case "dec":
 									out = make([]byte, 16)
-									blk.Decrypt(out, op.in.B)
+									blk.Decrypt(out, op.in.B[op.off:])
 								case "seal":
-									out = aead.Seal(nil, op.nonce.B, op.in.B, op.aad.B)
+									out = aead.Seal(nil, op.nonce.B, op.in.B[op.off:], op.aad.B)
 								default:
-									out, err = aead.Open(nil, op.nonce.B, op.in.B, op.aad.B)
+									out, err = aead.Open(nil, op.nonce.B, op.in.B[op.off:], op.aad.B)
 								}
 							})
-							atomic.AddInt64(&inflight, -1)
-							atomic.AddInt64(&total, 1)
+							olog.End()
 							d := hk.D{"path": pn, "op": op.kind, "len": len(op.in.B), "workers": workers, "gomaxprocs": procs, "key": hk.Hex(key)}
 							switch {
 							case p && isFault:
@@ -174,6 +186,14 @@ func TestVerifC17SM4(t *testing.T) {
 				}
 				close(start)
 				wg.Wait()
+				{
+					o, ov, mx := hk.MergeOverlap(logs)
+					total += o
+					overlapped += ov
+					if mx > maxInflight {
+						maxInflight = mx
+					}
+				}
 				var after [2][32]uint32
 				if c, ok := blk.(*sm4CipherAsm); ok {
 					after[0], after[1] = c.enc, c.dec
@@ -199,6 +219,109 @@ func TestVerifC17SM4(t *testing.T) {
 				}
 				gKey.Free()
 				gNonce.Free()
+			}
+			// ONE Block hammered with blocks that do NOT start on a 16-byte boundary, a phase of its own (expected
+			// results prepared beforehand, nothing but the cipher inside the goroutines)
+			{
+				key := rng.Bytes(16)
+				blk, _ := NewCipher(key)
+				nb := 48
+				type bm struct {
+					buf      []byte // block at buf[off:off+16]
+					off      int
+					ct       []byte
+				}
+				var bms []bm
+				for i := 0; i < nb; i++ {
+					off := 1 + i%15
+					b := rng.Bytes(16)
+					bms = append(bms, bm{append(make([]byte, off), b...), off, ref.SM4Encrypt(key, b)})
+				}
+				nw := 16
+				bad := make([]int, nw)
+				var wg sync.WaitGroup
+				start := make(chan struct{})
+				for w := 0; w < nw; w++ {
+					wg.Add(1)
+					go func(w int) {
+						defer wg.Done()
+						out, back := make([]byte, 16), make([]byte, 16)
+						<-start
+						x := uint32(w*2654435761 + 99)
+						for it := 0; it < hk.N(60000, 600000); it++ {
+							x = x*1664525 + 1013904223
+							m := &bms[int(x>>8)%nb]
+							blk.Encrypt(out, m.buf[m.off:])
+							blk.Decrypt(back, m.ct)
+							if !bytes.Equal(out, m.ct) || !bytes.Equal(back, m.buf[m.off:]) {
+								bad[w]++
+							}
+						}
+					}(w)
+				}
+				close(start)
+				wg.Wait()
+				for w := range bad {
+					if bad[w] != 0 {
+						r.Violation("concurrent-enc-differs-from-serial-result:misaligned-blocks-on-one-shared-Block:"+pn, hk.D{"key": hk.Hex(key), "goroutine": w, "wrong_results": bad[w]})
+						break
+					}
+				}
+				r.EvalN("shared-block-misaligned-hammer:"+pn, nw*hk.N(60000, 600000))
+			}
+			// FIRST USE of fresh AEADs: several goroutines make the very first calls on an AEAD that has just been derived
+			// (whatever an AEAD sets up lazily on first use is set up by all of them at once)
+			{
+				nTrials := hk.N(150, 1500)
+				for trial := 0; trial < nTrials; trial++ {
+					key := rng.Bytes(16)
+					blk, err := NewCipher(key)
+					if err != nil {
+						continue
+					}
+					a, err := cipher.NewGCM(blk)
+					if err != nil {
+						continue
+					}
+					g := ref.NewGCM(key)
+					const nw = 6
+					type job struct{ nonce, aad, pt, want []byte }
+					jobs := make([]job, nw)
+					for i := range jobs {
+						j := job{nonce: rng.Bytes(12), aad: rng.Bytes(i * 5), pt: rng.Bytes(1 + i*13)}
+						j.want = g.Seal(j.nonce, j.pt, j.aad, 16)
+						jobs[i] = j
+					}
+					start := make(chan struct{})
+					var wg sync.WaitGroup
+					bad := int64(0)
+					for i := 0; i < nw; i++ {
+						wg.Add(1)
+						go func(j job, sealFirst bool) {
+							defer wg.Done()
+							<-start
+							if sealFirst {
+								if !bytes.Equal(a.Seal(nil, j.nonce, j.pt, j.aad), j.want) {
+									atomic.AddInt64(&bad, 1)
+								}
+							}
+							if pt, e := a.Open(nil, j.nonce, j.want, j.aad); e != nil || !bytes.Equal(pt, j.pt) {
+								atomic.AddInt64(&bad, 1)
+							}
+						}(jobs[i], i%2 == 0)
+					}
+					close(start)
+					wg.Wait()
+					// and it must still be right afterwards, serially
+					if !bytes.Equal(a.Seal(nil, jobs[0].nonce, jobs[0].pt, jobs[0].aad), jobs[0].want) {
+						atomic.AddInt64(&bad, 1)
+					}
+					if bad != 0 {
+						r.Violation("fresh-aead-wrong-when-first-used-by-several-goroutines:"+pn, hk.D{"key": hk.Hex(key), "wrong_results": bad, "trial": trial})
+						break
+					}
+				}
+				r.EvalN("fresh-aead-first-use:"+pn, nTrials)
 			}
 			// object lifetimes under concurrency: sibling AEADs are collected and finalized WHILE other
 			// goroutines use the Block and a surviving AEAD
